@@ -163,8 +163,8 @@ def linear_case(rng, res):
     from kverif import refmodel as rm
 
     fi, fo = rng.randint(1, 6), rng.randint(1, 6)
-    lead = [rng.randint(1, 4) for _ in range(rng.choice([1, 1, 2, 3]))]
-    if rng.random() < 0.06:
+    lead = [rng.randint(1, 4) for _ in range(rng.choice([1, 1, 2, 3, 0]))]   # 0 leading dimensions: an unbatched, rank-1 input
+    if lead and rng.random() < 0.06:
         lead[0] = rng.choice([129, 200, 257, 300])
     bias = rng.random() < 0.5
     case = dict(kind='linear', fin=fi, fout=fo, lead=lead, bias=bias)
